@@ -7,6 +7,7 @@ Plan gen_stop(uint64_t seed, const GenOpts& g);
 Plan gen_hist(uint64_t seed, const GenOpts& g);
 Plan gen_file(uint64_t seed, const GenOpts& g);
 Plan gen_thr(uint64_t seed, const GenOpts& g);
+Plan gen_exact(uint64_t seed, const GenOpts& g);
 Plan generate_plan(const std::string& engine, uint64_t seed, const GenOpts& g);
 // swarm: random SoPlex algorithmic parameters as a 'set' op
 Op swarm_params(Rng& rng, const std::string& obj, bool rational, bool allowTimerOff);
